@@ -14,6 +14,17 @@ def replay_file(path):
     eng = rec.get("engine", "A")
     if eng == "A":
         hubutil.check_interpreters([rec["interp"]])
+        if rec.get("mode") == "batch":
+            job = dict(rec["job"], tree=tree)
+            res = hubutil.run_worker(rec["interp"], rec["hashseed"], job, timeout=900)
+            got = [x["fingerprint"] for vr in res["violating"] if vr["run"] == rec["run_index"] for x in vr["violations"]]
+            print("replay of %s (whole batch, cross-run state): recorded fingerprint %s" % (path, rec["fingerprint"]))
+            print("violations observed in run %d: %s" % (rec["run_index"], got or "none"))
+            if rec["fingerprint"] in got:
+                print("VIOLATION property=%s replay=%s" % (prop, path))
+                return 1
+            print("recorded violation did NOT reproduce on the current tree")
+            return 0
         job = {"engine": "A", "prop": prop, "tree": tree, "tier": rec.get("tier", "quick"), "mode": "replay", "ops": rec["ops"],
                "known": [], "keep_ops": False}
         res = hubutil.run_worker(rec["interp"], rec["hashseed"], job, timeout=300)
